@@ -19,6 +19,7 @@ import (
 
 	"github.com/blinklabs-io/gouroboros/cbor"
 	"github.com/blinklabs-io/gouroboros/protocol"
+	"github.com/blinklabs-io/gouroboros/protocol/leiosvotes"
 )
 
 func init() { registerDump("StateMaps", dumpStateMaps) }
@@ -333,5 +334,49 @@ func dumpStateMaps(w *bufio.Writer) {
 		}
 	}
 	fmt.Fprintf(w, "\ndef all : List Machine := [%s]\n", strings.Join(names, ", "))
+	// leios-votes keeps a counter in its state context: besides the table above (request counts
+	// 0,1,2,3,1001) probe the boundaries of the accepted request count, and the first vote after
+	// the largest accepted request, on the real engine.
+	if lv := g3FindProto("leiosvotes"); lv != nil {
+		for _, role := range []protocol.ProtocolRole{protocol.ProtocolRoleClient, protocol.ProtocolRoleServer} {
+			fmt.Fprintf(w, "\n/-- (request count, state reached from Idle or none), role %s -/\n", g3RoleName(role))
+			fmt.Fprintf(w, "def leiosvotesCountProbes_%s : List (Nat × Option Nat) := [", g3RoleName(role))
+			for i, c := range []uint64{0, 1, 2, 3, 999, 1000, 1001, 1002, 65535, 65536, 4294967295, 4294967296, 18446744073709551615} {
+				pr, done := lv.buildDetached(role)
+				ns, err := pr.VerifNextState(pr.VerifInitialState(), leiosvotes.NewMsgVotesRequestNext(c))
+				if i > 0 {
+					fmt.Fprint(w, ", ")
+				}
+				if err != nil {
+					fmt.Fprintf(w, "(%d, none)", c)
+				} else {
+					fmt.Fprintf(w, "(%d, some %d)", c, g3AbsState{ns, g3CtxNum(pr.VerifConfig().StateContext)}.id())
+				}
+				done()
+			}
+			fmt.Fprintln(w, "]")
+			// RequestNext(1000) followed by votes: states reached after 1, 2 and 1000 votes
+			pr, done := lv.buildDetached(role)
+			cur, err := pr.VerifNextState(pr.VerifInitialState(), leiosvotes.NewMsgVotesRequestNext(1000))
+			fmt.Fprintf(w, "def leiosvotesVotesAfter1000_%s : List (Nat × Option Nat) := [", g3RoleName(role))
+			first := true
+			for k := 1; k <= 1001 && err == nil; k++ {
+				cur, err = pr.VerifNextState(cur, leiosvotes.NewMsgVote(g3Vote()))
+				if k == 1 || k == 2 || k == 999 || k == 1000 || k == 1001 {
+					if !first {
+						fmt.Fprint(w, ", ")
+					}
+					first = false
+					if err != nil {
+						fmt.Fprintf(w, "(%d, none)", k)
+					} else {
+						fmt.Fprintf(w, "(%d, some %d)", k, g3AbsState{cur, g3CtxNum(pr.VerifConfig().StateContext)}.id())
+					}
+				}
+			}
+			fmt.Fprintln(w, "]")
+			done()
+		}
+	}
 	fmt.Fprintln(w, "\nend GV.Gen.StateMaps")
 }
